@@ -251,7 +251,15 @@ def _cls_align(data, finding):
     idless = not any('id' in c for c in a['cells']) or 'id' in ignored
     same_source = idless and len(set(srcs)) < len(srcs) and 'outputs' in ignored
     ids_differ = 'id' in ignored and [c.get('id') for c in a['cells']] != [c.get('id') for c in b['cells']]
-    return same_source or ids_differ
+    # (c) with outputs ignored the differ consulted by compare_cell_moderate returns an empty diff for any two non-empty
+    # output lists: cells whose sources are merely similar look alike at that level and are aligned crosswise
+    similar_sources = False
+    if idless and 'outputs' in ignored:
+        from nbdime.diffing.notebooks import compare_text_approximate
+        cs = a['cells']
+        similar_sources = any(cs[i]['cell_type'] == cs[j]['cell_type'] and compare_text_approximate(cs[i]['source'], cs[j]['source'])
+                              for i in range(len(cs)) for j in range(i + 1, len(cs)))
+    return same_source or ids_differ or similar_sources
 
 
 @vlib.classifier('numeric-alias-ignore')
